@@ -25,6 +25,27 @@ func profileFor(check, tier, variant string) *CheckDef {
 		if thorough {
 			d.MaxOps = 60
 		}
+	case "C04":
+		d.MinClients, d.MaxClients = 1, 3
+		d.MinOps, d.MaxOps = 6, 20
+		d.Readers, d.ExtRead = true, true
+		d.FSOnly = variant != "anydir"
+		if thorough {
+			d.MaxOps = 40
+		}
+	case "C05":
+		d.MinClients, d.MaxClients = 2, 8
+		d.MinOps, d.MaxOps = 2, 5
+		d.History = true
+		d.SmallIDs = true
+		d.PostRun = linPostRun
+	case "C06":
+		d.MinClients, d.MaxClients = 1, 3
+		d.MinOps, d.MaxOps = 8, 30
+		d.MergeHeavy, d.DeleteBias = true, true
+		if thorough {
+			d.MaxOps = 60
+		}
 	case "selftest":
 		d.MinClients, d.MaxClients = 1, 4
 		d.MinOps, d.MaxOps = 3, 10
